@@ -45,7 +45,16 @@ func TestSim(t *testing.T) {
 	})
 }
 
-var kinds = []string{"add", "put", "get", "delete", "erase", "size", "has", "find", "popfirst", "poplast", "listsize", "namedsize", "insert"}
+var kinds = []string{"add", "put", "get", "delete", "erase", "size", "has", "find", "popfirst", "poplast", "listsize", "namedsize", "insert", "copy", "slice", "pput"}
+
+// copyKinds is the mix of the runs that concentrate on copy-on-write: threads take private
+// copies of the shared object (copy, slice) and then modify (pput, padd, pdel) or just look at
+// (pcheck) their own copy while the others go on modifying the shared one.
+var copyKinds = []string{"copy", "copy", "slice", "put", "put", "add", "delete", "pput", "pput", "padd", "pdel", "pcheck", "get"}
+
+func private(kind string) bool {
+	return kind == "pput" || kind == "padd" || kind == "pdel" || kind == "pcheck"
+}
 
 // apply performs one operation on an object and renders the result; Suneido level
 // exceptions are results, Go run-time errors are reported separately.
@@ -107,8 +116,41 @@ func apply(ob *core.SuObject, in opIn) (out string, crash string) {
 	case "insert":
 		ob.Insert(in.K, v)
 		return "ok", ""
+	case "copy":
+		return encode(ob.Clone()), ""
+	case "slice":
+		return encode(ob.Slice(in.K % 3).(*core.SuObject)), ""
+	case "pput":
+		ob.Put(nil, k, v)
+		return "ok", ""
+	case "padd":
+		ob.Add(v)
+		return "ok", ""
+	case "pdel":
+		return fmt.Sprint(ob.Delete(nil, k)), ""
+	case "pcheck":
+		return "ok", ""
 	}
 	return "?", ""
+}
+
+// takeCopy performs copy or slice on the shared object and keeps the copy.
+func takeCopy(ob *core.SuObject, in opIn) (cp *core.SuObject, out string, crash string) {
+	defer func() {
+		if e := recover(); e != nil {
+			if _, ok := e.(interface{ RuntimeError() }); ok {
+				crash = fmt.Sprint(e)
+				return
+			}
+			out = "throws: " + fmt.Sprint(e)
+		}
+	}()
+	if in.Kind == "slice" {
+		cp = ob.Slice(in.K % 3).(*core.SuObject)
+	} else {
+		cp = ob.Clone()
+	}
+	return cp, encode(cp), ""
 }
 
 // encode renders the contents of an object canonically.
@@ -165,13 +207,23 @@ func run(s *simrt.Sim, mode string, ri *hkit.RunInfo) {
 	initial := encode(ob)
 	ob.SetConcurrent()
 	nthreads := g.Range(2, 4)
+	mix, maxOps := kinds, 6
+	if g.Choose(2) == 0 {
+		mix, maxOps = copyKinds, 9
+		if g.Choose(2) == 0 {
+			// a shared object that has been copied and modified before
+			ob.Clone()
+			ob.Add(core.SuInt(g.Choose(4)))
+			initial = encode(ob)
+		}
+	}
 	var plans [][]opIn
 	total := 0
 	for t := 0; t < nthreads; t++ {
-		n := g.Range(1, 6)
+		n := g.Range(1, maxOps)
 		var ops []opIn
 		for i := 0; i < n; i++ {
-			ops = append(ops, opIn{Kind: kinds[g.Choose(len(kinds))], K: g.Choose(9), V: g.Choose(4)})
+			ops = append(ops, opIn{Kind: mix[g.Choose(len(mix))], K: g.Choose(9), V: g.Choose(4)})
 		}
 		total += n
 		plans = append(plans, ops)
@@ -184,13 +236,64 @@ func run(s *simrt.Sim, mode string, ri *hkit.RunInfo) {
 		wg.Add(1)
 		s.GoNamed(fmt.Sprintf("thread%d", t), func() {
 			defer wg.Done()
+			// this thread's private copy of the shared object, and what it has to contain
+			var priv, privModel *core.SuObject
+			intact := func(when string) bool {
+				if priv == nil {
+					return true
+				}
+				if got, want := encode(priv), encode(privModel); got != want {
+					s.Fail("C43/copy-aliased", "", "thread %d: its private copy of the shared object, which only it uses, contains %q %s but should contain %q: another thread's modification leaked into it", t, got, when, want)
+					return false
+				}
+				return true
+			}
+			defer func() {
+				if !s.Over() {
+					intact("at the end of the run")
+				}
+			}()
 			for _, in := range plans[t] {
 				if s.Over() {
 					return
 				}
+				if private(in.Kind) && priv == nil {
+					in.Kind = "copy"
+				}
+				if private(in.Kind) {
+					if !intact(fmt.Sprintf("before its %s(%d,%d)", in.Kind, in.K, in.V)) {
+						return
+					}
+					out, crash := apply(priv, in)
+					want, _ := apply(privModel, in)
+					if crash != "" {
+						s.Fail("C43/crash", "", "thread %d: %s(%d,%d) on its private copy raised a Go run-time error: %s", t, in.Kind, in.K, in.V, crash)
+						return
+					}
+					if out != want {
+						s.Fail("C43/copy-aliased", "", "thread %d: %s(%d,%d) on its private copy returned %q, should have returned %q", t, in.Kind, in.K, in.V, out, want)
+						return
+					}
+					if !intact(fmt.Sprintf("after its %s(%d,%d)", in.Kind, in.K, in.V)) {
+						return
+					}
+					s.Note("t%d %s(%d,%d)=%s", t, in.Kind, in.K, in.V, out)
+					continue
+				}
 				seq++
 				c := seq
-				out, crash := apply(ob, in)
+				var out, crash string
+				if in.Kind == "copy" || in.Kind == "slice" {
+					if !intact("when it was replaced") {
+						return
+					}
+					priv, out, crash = takeCopy(ob, in)
+					if crash == "" && priv != nil {
+						privModel = decode(out)
+					}
+				} else {
+					out, crash = apply(ob, in)
+				}
 				seq++
 				if crash != "" {
 					s.Fail("C43/crash", "", "thread %d: %s(%d,%d) on a shared object raised a Go run-time error: %s", t, in.Kind, in.K, in.V, crash)
